@@ -1450,7 +1450,11 @@ impl StoryState {
             self.switch_to_default_flow_internal();
         }
 
-        self.named_flows.as_mut().unwrap().remove(flow_name);
+        // No flow has ever been created if `named_flows` is still `None`:
+        // nothing to remove then.
+        if let Some(named_flows) = self.named_flows.as_mut() {
+            named_flows.remove(flow_name);
+        }
         self.alive_flow_names_dirty = true;
 
         Ok(())
